@@ -38,9 +38,26 @@ pub struct KeyFamily {
     /// every key occurs `repeat` times in a row (only meaningful for sets,
     /// where a repeated key is a legal no-op); n counts occurrences
     pub repeat: u32,
+    /// > 0: the stream comes in *sections*. Inside a section the same
+    /// vocabulary of `sec_vocab` tails (keys of this family, seeded by the
+    /// section) is repeated under `sec_parents` different parent letters, so
+    /// every tail node is compiled once and then found in the node cache
+    /// again and again; the next section brings a new vocabulary that pushes
+    /// those often-found nodes out of the cache.
+    pub sec_vocab: u32,
+    pub sec_parents: u32,
 }
 
 impl KeyFamily {
+    /// Longest key of the family (for the bound).
+    pub fn max_key_len(&self) -> u32 {
+        if self.sec_vocab > 0 {
+            let per = self.sec_vocab as u64 * self.sec_parents as u64;
+            let secs = KeyFamily { sec_vocab: 0, sec_parents: 0, fanout: 26, n: self.n / per + 1, ..*self };
+            return secs.digits() + 1 + self.keylen + 1;
+        }
+        self.keylen + 1
+    }
     pub fn digits(&self) -> u32 {
         let f = self.fanout as u64;
         let mut d = 1;
@@ -62,6 +79,19 @@ impl KeyFamily {
     }
     /// Write key `i` into `buf` (reusing its capacity).
     pub fn key_into(&self, i: u64, buf: &mut Vec<u8>) {
+        if self.sec_vocab > 0 {
+            let v = self.sec_vocab as u64;
+            let per = v * self.sec_parents as u64;
+            let (s, p, t) = (i / per, (i % per) / v, i % v);
+            let secs = KeyFamily { sec_vocab: 0, sec_parents: 0, pairs: false, leaf_fan: 0, repeat: 1, fanout: 26, n: self.n / per + 1, ..*self };
+            let d = secs.digits();
+            secs.key_into_plain(s, buf, d);
+            buf.truncate(d as usize);
+            buf.push(b'A' + p as u8);
+            let tail = KeyFamily { sec_vocab: 0, sec_parents: 0, pairs: false, leaf_fan: 0, repeat: 1, n: v, seed: mix(self.seed, 0x5ec7, s), ..*self };
+            tail.append_plain(t, buf, tail.digits());
+            return;
+        }
         if self.repeat > 1 {
             let base = KeyFamily { repeat: 1, n: self.n / self.repeat as u64 + 1, ..*self };
             return base.key_into(i / self.repeat as u64, buf);
@@ -93,6 +123,11 @@ impl KeyFamily {
 
     fn key_into_plain(&self, i: u64, buf: &mut Vec<u8>, d: u32) {
         buf.clear();
+        self.append_plain(i, buf, d);
+    }
+
+    fn append_plain(&self, i: u64, buf: &mut Vec<u8>, d: u32) {
+        let start = buf.len();
         let f = self.fanout as u64;
         let mut div = 1u64;
         for _ in 1..d {
@@ -108,7 +143,7 @@ impl KeyFamily {
         let mut r = Rng::new(mix(self.seed, 0x6b65, i));
         let mut bits = 0u64;
         let mut have = 0;
-        while (buf.len() as u32) < self.keylen {
+        while ((buf.len() - start) as u32) < self.keylen {
             if have == 0 {
                 bits = r.next_u64();
                 have = 8;
@@ -119,6 +154,12 @@ impl KeyFamily {
         }
     }
     pub fn value(&self, i: u64) -> u64 {
+        if self.sec_vocab > 0 {
+            // the same tail has the same value under every parent
+            let v = self.sec_vocab as u64;
+            let per = v * self.sec_parents as u64;
+            return mix(self.seed, 0x76, (i / per) * v + i % v) & 0xffff;
+        }
         if self.decreasing {
             return (1u64 << 40) - i;
         }
@@ -141,6 +182,16 @@ pub struct MemBuildCase {
     /// from the stream of a source FST built beforehand
     pub bulk: bool,
     pub bulk_stream: bool,
+    /// insert loop only: after every accepted key, this many inserts that the
+    /// builder must refuse (a smaller key; for maps also the same key again).
+    /// A refused insert leaves no trace, so it must not leave memory behind
+    /// either.
+    pub rejects: u32,
+    /// insert loop only: half way through, ONE uninterrupted run of this many
+    /// inserts that the builder must refuse (the first keys of the family
+    /// once more: a second sorted input fed behind the first one by a caller
+    /// that skips the refusals)
+    pub reject_run: u64,
 }
 
 #[derive(Clone, Debug)]
@@ -153,6 +204,11 @@ pub struct MemBuildRun {
     pub checkpoints: u64,
     pub bytes_emitted: u64,
     pub allocs: u64,
+    /// legal inserts the builder refused (not a memory matter: the run goes
+    /// on, C06 / C01 judge that) and whether the run ended early because the
+    /// builder reported an I/O error on a sink that injects none
+    pub refused: u64,
+    pub cut_short: bool,
     pub violation: Option<Violation>,
     pub digest: u64,
 }
@@ -198,6 +254,8 @@ pub fn run_mem_build(case: &MemBuildCase) -> MemBuildRun {
         checkpoints: 0,
         bytes_emitted: 0,
         allocs: 0,
+        refused: 0,
+        cut_short: false,
         violation: None,
         digest: 0,
     };
@@ -229,10 +287,13 @@ pub fn run_mem_build(case: &MemBuildCase) -> MemBuildRun {
     let r = catch_unwind(AssertUnwindSafe(|| -> Option<Violation> {
         let mut b = match AnyBuilder::create(front, tap, case.registry) {
             Ok(b) => b,
-            Err(e) => return viol("C13.harness.constructor_failed", format!("{:?}", e)),
+            Err(_) => {
+                run.cut_short = true;
+                return None;
+            }
         };
         run.after_new = alloc::live() - base.live;
-        let bound = build_bound(case.registry, std::cmp::max(fam.fanout, fam.leaf_fan), fam.keylen + 1, run.after_new);
+        let bound = build_bound(case.registry, std::cmp::max(fam.fanout, fam.leaf_fan), fam.max_key_len(), run.after_new);
         run.bound = bound;
         if case.bulk {
             // the slice is harness memory allocated before the baseline; the
@@ -281,8 +342,8 @@ pub fn run_mem_build(case: &MemBuildCase) -> MemBuildRun {
                     AnyBuilder::Raw(r) => r.extend_iter(it.map(|(k, v)| (k, fst::raw::Output::new(*v)))),
                 }
             };
-            if let Err(e) = r {
-                return viol("C13.harness.insert_failed", format!("extend_iter: {:?}", e));
+            if r.is_err() {
+                run.cut_short = true;
             }
             run.live_at_end = alloc::live() - base.live;
             if let Some((i, live)) = over {
@@ -302,8 +363,72 @@ pub fn run_mem_build(case: &MemBuildCase) -> MemBuildRun {
                 AnyBuilder::Set(s) => s.insert(&key),
                 AnyBuilder::Raw(r) => r.add(&key),
             };
-            if let Err(e) = r {
-                return viol("C13.harness.insert_failed", format!("key {}: {:?}", i, e));
+            match r {
+                Ok(()) => {}
+                Err(fst::Error::Io(_)) => {
+                    run.cut_short = true;
+                    break;
+                }
+                Err(_) => run.refused += 1,
+            }
+            for j in 0..case.rejects {
+                // a smaller key (the key with its last byte lowered, or a
+                // proper prefix), or for maps the same key again
+                let n = key.len();
+                let same = case.map && j % 2 == 1;
+                let saved = key[n - 1];
+                if !same {
+                    if saved > 0 {
+                        key[n - 1] = saved - 1;
+                    } else {
+                        key.truncate(n - 1);
+                    }
+                }
+                let r = match &mut b {
+                    AnyBuilder::Map(m) => m.insert(&key, 7),
+                    AnyBuilder::Set(s) => s.insert(&key),
+                    AnyBuilder::Raw(r) => r.add(&key),
+                };
+                if !same {
+                    if saved > 0 {
+                        key[n - 1] = saved;
+                    } else {
+                        key.push(saved);
+                    }
+                }
+                // (whether it really was refused is C06's business)
+                let _ = r;
+            }
+            if case.reject_run > 0 && i == fam.n / 2 {
+                let mut k2: Vec<u8> = Vec::with_capacity(key.capacity());
+                for j in 0..std::cmp::min(case.reject_run, i) {
+                    fam.key_into(j, &mut k2);
+                    let _ = match &mut b {
+                        AnyBuilder::Map(m) => m.insert(&k2, 7),
+                        AnyBuilder::Set(s) => s.insert(&k2),
+                        AnyBuilder::Raw(r) => r.add(&k2),
+                    };
+                    if (j + 1) % case.every == 0 {
+                        let live = alloc::live() - base.live;
+                        run.checkpoints += 1;
+                        if live > run.max_live {
+                            run.max_live = live;
+                        }
+                        if live > bound {
+                            return viol(
+                                "C13.live_heap_exceeds_bound",
+                                format!(
+                                    "after {} accepted inserts and a run of {} refused ones: {} B live > bound {} B (cache {:?})",
+                                    i + 1,
+                                    j + 1,
+                                    live,
+                                    bound,
+                                    case.registry.unwrap_or((10_000, 2))
+                                ),
+                            );
+                        }
+                    }
+                }
             }
             if (i + 1) % case.every == 0 || i + 1 == fam.n {
                 let live = alloc::live() - base.live;
@@ -334,8 +459,8 @@ pub fn run_mem_build(case: &MemBuildCase) -> MemBuildRun {
         }
         run.bytes_emitted = b.bytes_written();
         let (r, _) = b.finish(Fin::Finish);
-        if let Err(e) = r {
-            return viol("C13.harness.finish_failed", format!("{:?}", e));
+        if r.is_err() {
+            run.cut_short = true;
         }
         None
     }));
@@ -351,6 +476,8 @@ pub fn run_mem_build(case: &MemBuildCase) -> MemBuildRun {
     d.u64(run.live_at_end as u64);
     d.u64(run.bytes_emitted);
     d.u64(run.allocs);
+    d.u64(run.refused);
+    d.u64(run.cut_short as u64);
     run.digest = d.finish();
     run
 }
@@ -423,9 +550,10 @@ where
     n
 }
 
-fn measure_all(fam: &KeyFamily, k: u32, fsts_bytes: &[Vec<u8>]) -> Vec<OpMeasure> {
-    let mut out = Vec::new();
-    let main = &fsts_bytes[0];
+
+/// 1000 look-up probes: present keys, proper prefixes, extensions, and keys
+/// with one byte changed.
+fn make_probes(fam: &KeyFamily) -> Vec<Vec<u8>> {
     let mut key = Vec::with_capacity(fam.keylen as usize + 8);
     let mut probes: Vec<Vec<u8>> = Vec::new();
     for t in 0..1000u64 {
@@ -445,31 +573,94 @@ fn measure_all(fam: &KeyFamily, k: u32, fsts_bytes: &[Vec<u8>]) -> Vec<OpMeasure
         }
         probes.push(p);
     }
-    // open + point look-ups on borrowed bytes
-    out.push(measure("open+get", || {
-        let f = fst::raw::Fst::new(&main[..]).expect("harness: open");
-        let m = fst::Map::new(&main[..]).expect("harness: open");
-        let s = fst::Set::new(&main[..]).expect("harness: open");
-        let mut hits = 0;
-        for p in &probes {
-            if f.get(p).is_some() {
-                hits += 1;
-            }
-            if f.contains_key(p) {
-                hits += 1;
-            }
-            if m.get(p).is_some() {
-                hits += 1;
-            }
-            if m.contains_key(p) {
-                hits += 1;
-            }
-            if s.contains(p) {
-                hits += 1;
-            }
+    probes
+}
+
+fn open_and_get(main: &[u8], probes: &[Vec<u8>]) -> u64 {
+    let f = fst::raw::Fst::new(main).expect("harness: open");
+    let m = fst::Map::new(main).expect("harness: open");
+    let s = fst::Set::new(main).expect("harness: open");
+    let mut hits = 0;
+    for p in probes {
+        if f.get(p).is_some() {
+            hits += 1;
         }
-        hits
-    }));
+        if f.contains_key(p) {
+            hits += 1;
+        }
+        if m.get(p).is_some() {
+            hits += 1;
+        }
+        if m.contains_key(p) {
+            hits += 1;
+        }
+        if s.contains(p) {
+            hits += 1;
+        }
+    }
+    hits
+}
+
+/// The body of `fstsim c14-cold`: stdin holds [u32 n][u32 len, bytes]*; blob 0
+/// is an FST some other process built, the rest are probes. This process has
+/// not touched the library yet (no builder, no stream), so anything the
+/// library sets up lazily on first use is set up inside the measured region.
+pub fn cold_child(input: &[u8]) -> String {
+    let rd = |at: usize| u32::from_le_bytes([input[at], input[at + 1], input[at + 2], input[at + 3]]) as usize;
+    let n = rd(0);
+    let mut at = 4;
+    let mut blobs: Vec<Vec<u8>> = Vec::with_capacity(n);
+    for _ in 0..n {
+        let l = rd(at);
+        at += 4;
+        blobs.push(input[at..at + l].to_vec());
+        at += l;
+    }
+    let main = blobs.remove(0);
+    let m = measure("cold", || open_and_get(&main[..], &blobs));
+    format!("{} {} {}", m.allocs, m.peak, m.emitted)
+}
+
+/// Run `open + point look-ups` in a fresh process (parent side).
+fn cold_reader(name: &str, fst_bytes: &[u8], probes: &[Vec<u8>]) -> OpMeasure {
+    use std::io::{Read, Write};
+    use std::process::{Command, Stdio};
+    let mut input = Vec::with_capacity(fst_bytes.len() + 64 * probes.len());
+    input.extend_from_slice(&((probes.len() + 1) as u32).to_le_bytes());
+    for b in std::iter::once(fst_bytes).chain(probes.iter().map(|p| &p[..])) {
+        input.extend_from_slice(&(b.len() as u32).to_le_bytes());
+        input.extend_from_slice(b);
+    }
+    let exe = std::env::current_exe().expect("harness: current_exe");
+    let mut child = Command::new(exe)
+        .arg("c14-cold")
+        .stdin(Stdio::piped())
+        .stdout(Stdio::piped())
+        .stderr(Stdio::inherit())
+        .spawn()
+        .expect("harness: spawn cold reader");
+    child.stdin.take().expect("harness: stdin").write_all(&input).expect("harness: feed cold reader");
+    let mut out = String::new();
+    child.stdout.take().expect("harness: stdout").read_to_string(&mut out).expect("harness: read cold reader");
+    let st = child.wait().expect("harness: wait cold reader");
+    let f: Vec<i64> = out.split_whitespace().filter_map(|x| x.parse().ok()).collect();
+    if !st.success() || f.len() != 3 {
+        // the child runs only open + look-ups on a valid FST: dying there is
+        // reported as a panic of those operations
+        return OpMeasure { name: format!("{}.died", name), peak: -1, allocs: u64::MAX, emitted: 0 };
+    }
+    OpMeasure { name: name.to_string(), allocs: f[0] as u64, peak: f[1], emitted: f[2] as u64 }
+}
+
+fn measure_all(fam: &KeyFamily, k: u32, fsts_bytes: &[Vec<u8>]) -> Vec<OpMeasure> {
+    let mut out = Vec::new();
+    let main = &fsts_bytes[0];
+    let mut key = Vec::with_capacity(fam.keylen as usize + 8);
+    let probes = make_probes(fam);
+    // open + point look-ups on borrowed bytes
+    out.push(measure("open+get", || open_and_get(&main[..], &probes)));
+    // the same in a fresh process that has never built or streamed anything
+    out.push(cold_reader("open+get.cold_process", &main[..], &probes));
     // the same data as a version-2 file (no checksum trailer): older files
     // must open and answer look-ups without allocating as well
     let mut v2 = main[..main.len() - 4].to_vec();
@@ -640,7 +831,7 @@ pub fn run_mem_read(case: &MemReadCase) -> MemReadRun {
     let mut run = MemReadRun::default();
     let r = catch_unwind(AssertUnwindSafe(|| -> Option<Violation> {
         for (which, n) in [(0, case.n_small), (1, case.n_large)] {
-            let fam = KeyFamily { n, fanout: case.fanout, keylen: case.keylen, seed: case.seed, pairs: false, leaf_fan: 0, decreasing: false, repeat: 1 };
+            let fam = KeyFamily { n, fanout: case.fanout, keylen: case.keylen, seed: case.seed, pairs: false, leaf_fan: 0, decreasing: false, repeat: 1, sec_vocab: 0, sec_parents: 0 };
             let fsts = build_family(&fam, case.k);
             let ms = measure_all(&fam, case.k, &fsts);
             if which == 0 {
@@ -651,6 +842,12 @@ pub fn run_mem_read(case: &MemReadCase) -> MemReadRun {
         }
         for m in run.small.iter().chain(run.large.iter()) {
             if m.name.starts_with("open+get") {
+                if m.name.ends_with(".died") {
+                    return viol(
+                        "C14.cold_reader_died",
+                        format!("{}: a fresh process running only open + point look-ups on a valid FST did not finish", m.name),
+                    );
+                }
                 if m.allocs != 0 {
                     return viol(
                         "C14.open_or_lookup_allocates",
@@ -967,7 +1164,7 @@ pub struct DeltaCase {
 }
 
 fn delta_keys(n: u64, seed: u64, pad: u64) -> (KeyFamily, u64, Vec<u8>) {
-    let fam = KeyFamily { n: std::cmp::max(n, 1), fanout: 26, keylen: 12, seed, pairs: false, leaf_fan: 0, decreasing: false, repeat: 1 };
+    let fam = KeyFamily { n: std::cmp::max(n, 1), fanout: 26, keylen: 12, seed, pairs: false, leaf_fan: 0, decreasing: false, repeat: 1, sec_vocab: 0, sec_parents: 0 };
     let mut last = vec![b'z'];
     last.extend(std::iter::repeat(b'e').take(pad as usize));
     (fam, n, last)
